@@ -8,6 +8,11 @@ namespace PonyVerif.Model.Rel
 theorem mem_filter_range {n : Nat} {f : Nat → Bool} {x : Nat} : x ∈ (List.range n).filter f ↔ x < n ∧ f x = true := by
   simp [List.mem_filter, List.mem_range]
 
+/-- every half link of `s'` was one of `s`, or is a new one between `o` (attribute `a`) and a value in `V` -/
+def NewLinks (sch : Schema) (s s' : Store) (o : ObjId) (a : Attr) (V : ObjId → Prop) : Prop :=
+  ∀ p b q, hasB sch s' p b q = true →
+    hasB sch s p b q = true ∨ (p = o ∧ b = a ∧ V q) ∨ (q = o ∧ b = sch.rev a ∧ V p)
+
 section ops
 variable {sch : Schema}
 
@@ -261,7 +266,7 @@ theorem setCollCore_ok {del : ObjId → St → Res} {isRev : Bool} {o : ObjId} {
     (hdel : DelSpec sch del)
     (h : setCollCore sch del isRev o c items st = .ok st') (hc : sch.side c = some cd) (hcd : cd.isColl = true)
     (ho : o < st.store.n) (hitems : ∀ x ∈ items, x < st.store.n) (hA : Agree sch st.store) (hR : Range st.store) :
-    Agree sch st'.store ∧ Range st'.store ∧ st'.store.n = st.store.n := by
+    Agree sch st'.store ∧ Range st'.store ∧ st'.store.n = st.store.n ∧ NewLinks sch st.store st'.store o c (· ∈ items) := by
   unfold setCollCore at h
   split at h
   · cases h
@@ -272,7 +277,7 @@ theorem setCollCore_ok {del : ObjId → St → Res} {isRev : Bool} {o : ObjId} {
       rw [hc] at hd; cases hd
       simp only at h
       split at h
-      · cases h; exact ⟨hA, hR, rfl⟩
+      · cases h; exact ⟨hA, hR, rfl, fun p b q hh => Or.inl hh⟩
       · obtain ⟨st2, h12, h2⟩ := Res.bind_ok h
         cases h2
         have hrr := sch.rev_rev c
@@ -286,7 +291,11 @@ theorem setCollCore_ok {del : ObjId → St → Res} {isRev : Bool} {o : ObjId} {
         generalize (List.range st.store.n).filter (fun x => items.contains x && !st.store.mem o c x) = toAdd at *
         generalize (List.range st.store.n).filter (fun x => st.store.mem o c x && !items.contains x) = toRemove at *
         have e2 := hasB_coll_eq (sch := sch) (s := st.store) hc hcd
+        have hcont : ∀ x, items.contains x = true ↔ x ∈ items := fun x => by simp
         simp only [rewriteRow_store]
+        clear h
+        rename_i hnoteq
+        clear hnoteq
         split at h12
         · rename_i hcoll
           have hrd' : rd.isColl = false := by simpa using hcoll
@@ -302,7 +311,7 @@ theorem setCollCore_ok {del : ObjId → St → Res} {isRev : Bool} {o : ObjId} {
             have e1 := hasB_ref_eq (sch := sch) (s := st1.store) hrd hrd'
             have e0 := hasB_ref_eq (sch := sch) (s := st.store) hrd hrd'
             have e3 := hasB_coll_eq (sch := sch) (s := st1.store) hc hcd
-            refine ⟨?_, ?_, ?_⟩
+            refine ⟨?_, ?_, ?_, ?_⟩
             · intro p b q hp hal2 hh
               simp only [Store.setRow] at hp hal2
               rw [hF2.n, hS1.n] at hp; rw [hF2.alive] at hal2
@@ -321,8 +330,11 @@ theorem setCollCore_ok {del : ObjId → St → Res} {isRev : Bool} {o : ObjId} {
               have a11 := hR.2 o c p ho
               have a12 := hS1.alive o
               have a13 := hitems q
+              have c1 := hcont q
+              have c2 := hcont p
               rw [hrr] at a2 a3
-              grind [Schema.rev_rev, Schema.rev_inj, List.contains_iff_mem]
+              clear h12 h1 h2
+              grind [Schema.rev_rev, Schema.rev_inj]
             · refine ⟨?_, ?_⟩
               · intro p b x hp hx
                 simp only [Store.setRow] at hp hx ⊢
@@ -340,10 +352,19 @@ theorem setCollCore_ok {del : ObjId → St → Res} {isRev : Bool} {o : ObjId} {
                 have := hS1.n
                 grind
             · simp only [Store.setRow]; rw [hF2.n, hS1.n]
+            · intro p b q hh
+              rw [hasB_setRow hc hcd] at hh
+              have a2 := hH2 p b q
+              have a3 := hS1.has (sch := sch) (p := p) (b := b) (q := q)
+              have a4 := hadd p
+              have c1 := hcont q
+              rw [hrr] at a2
+              clear h12 h1 h2
+              grind [Schema.rev_rev, Schema.rev_inj]
           · -- one-to-many, no cascade
             obtain ⟨hH1, hRf1, hF1, hM1, hAl1⟩ := iterClear_ok hrd hrd' hc' hcd _ _ _ h1
             have e0 := hasB_ref_eq (sch := sch) (s := st.store) hrd hrd'
-            refine ⟨?_, ?_, ?_⟩
+            refine ⟨?_, ?_, ?_, ?_⟩
             · intro p b q hp hal2 hh
               simp only [Store.setRow] at hp hal2
               rw [hF2.n, hF1.n] at hp; rw [hF2.alive, hF1.alive] at hal2
@@ -362,8 +383,11 @@ theorem setCollCore_ok {del : ObjId → St → Res} {isRev : Bool} {o : ObjId} {
               have a10 := hRf1 p (sch.rev c)
               have a11 := hR.2 p b q hp
               have a13 := hitems q
+              have c1 := hcont q
+              have c2 := hcont p
               rw [hrr] at a2 a3 b2 b3
-              grind [Schema.rev_rev, Schema.rev_inj, List.contains_iff_mem]
+              clear h12 h1 h2
+              grind [Schema.rev_rev, Schema.rev_inj]
             · refine ⟨?_, ?_⟩
               · intro p b x hp hx
                 simp only [Store.setRow] at hp hx ⊢
@@ -380,13 +404,22 @@ theorem setCollCore_ok {del : ObjId → St → Res} {isRev : Bool} {o : ObjId} {
                 have r4 := hitems x
                 grind
             · simp only [Store.setRow]; rw [hF2.n, hF1.n]
+            · intro p b q hh
+              rw [hasB_setRow hc hcd] at hh
+              have a2 := hH2 p b q
+              have b2 := hH1 p b q
+              have a4 := hadd p
+              have c1 := hcont q
+              rw [hrr] at a2 b2
+              clear h12 h1 h2
+              grind [Schema.rev_rev, Schema.rev_inj]
         · -- many-to-many
           rename_i hcoll
           have hrd' : rd.isColl = true := by simpa using hcoll
           obtain ⟨st1, h1, h2⟩ := Res.bind_ok h12
           obtain ⟨hH1, hRf1, hF1, hM1, hAs1⟩ := reverseRemove_ok hrd hrd' o _ _ _ h1
           obtain ⟨hH2, hRf2, hF2, hM2, hAs2⟩ := reverseAdd_ok hrd hrd' o _ _ _ h2
-          refine ⟨?_, ?_, ?_⟩
+          refine ⟨?_, ?_, ?_, ?_⟩
           · intro p b q hp hal2 hh
             simp only [Store.setRow] at hp hal2
             rw [hF2.n, hF1.n] at hp; rw [hF2.alive, hF1.alive] at hal2
@@ -403,7 +436,10 @@ theorem setCollCore_ok {del : ObjId → St → Res} {isRev : Bool} {o : ObjId} {
             have a8 := hA o c q ho hal'
             have a11 := hR.2 p b q hp
             have a13 := hitems q
-            grind [Schema.rev_rev, Schema.rev_inj, List.contains_iff_mem]
+            have c1 := hcont q
+            have c2 := hcont p
+            clear h12 h1 h2
+            grind [Schema.rev_rev, Schema.rev_inj]
           · refine ⟨?_, ?_⟩
             · intro p b x hp hx
               simp only [Store.setRow] at hp hx ⊢
@@ -419,6 +455,14 @@ theorem setCollCore_ok {del : ObjId → St → Res} {isRev : Bool} {o : ObjId} {
               have r4 := hitems x
               grind
           · simp only [Store.setRow]; rw [hF2.n, hF1.n]
+          · intro p b q hh
+            rw [hasB_setRow hc hcd] at hh
+            have a2 := hH2 p b q
+            have b2 := hH1 p b q
+            have a4 := hadd p
+            have c1 := hcont q
+            clear h12 h1 h2
+            grind [Schema.rev_rev, Schema.rev_inj]
     · cases h
 
 end ops
